@@ -1979,11 +1979,13 @@ namespace cds { namespace intrusive {
             {
                 rcu_lock l;
 
-                if ( !find_min_position( pos )) {
-                    m_Stat.onExtractMinFailed();
-                    pDel = nullptr;
-                }
-                else {
+                while ( true ) {
+                    if ( !find_min_position( pos )) {
+                        m_Stat.onExtractMinFailed();
+                        pDel = nullptr;
+                        break;
+                    }
+
                     pDel = pos.pCur;
                     unsigned int const nHeight = pDel->height();
 
@@ -1991,11 +1993,11 @@ namespace cds { namespace intrusive {
                         --m_ItemCounter;
                         m_Stat.onRemoveNode( nHeight );
                         m_Stat.onExtractMinSuccess();
+                        break;
                     }
-                    else {
-                        m_Stat.onExtractMinFailed();
-                        pDel = nullptr;
-                    }
+
+                    // the item has been removed by another thread - the list may still be non-empty, try again
+                    m_Stat.onExtractMinRetry();
                 }
             }
 
@@ -2012,11 +2014,13 @@ namespace cds { namespace intrusive {
             {
                 rcu_lock l;
 
-                if ( !find_max_position( pos )) {
-                    m_Stat.onExtractMaxFailed();
-                    pDel = nullptr;
-                }
-                else {
+                while ( true ) {
+                    if ( !find_max_position( pos )) {
+                        m_Stat.onExtractMaxFailed();
+                        pDel = nullptr;
+                        break;
+                    }
+
                     pDel = pos.pCur;
                     unsigned int const nHeight = pDel->height();
 
@@ -2024,11 +2028,11 @@ namespace cds { namespace intrusive {
                         --m_ItemCounter;
                         m_Stat.onRemoveNode( nHeight );
                         m_Stat.onExtractMaxSuccess();
+                        break;
                     }
-                    else {
-                        m_Stat.onExtractMaxFailed();
-                        pDel = nullptr;
-                    }
+
+                    // the item has been removed by another thread - the list may still be non-empty, try again
+                    m_Stat.onExtractMaxRetry();
                 }
             }
 
